@@ -320,6 +320,38 @@ func genFlow(t *Tape, name string) *Plan {
 	// subscriber first
 	g.Connect(0)
 	g.Subscribe(0)
+	if name == "C11" && t.Draw("c11.shape", 4) == 0 {
+		// resumed-session skeleton: a client fills the server's Receive Maximum with QoS 2 publishes whose PUBREL it
+		// holds back, loses the connection, resumes the session and retransmits one of them (DUP): it is still
+		// within the limit and must not be refused. The random tail follows.
+		first := len(g.plan.Ops)
+		ci := g.Connect(1)
+		g.plan.Ops[ci].AckMode = 3
+		g.plan.Ops[ci].Pkt.CleanStart = false
+		var origs []*refcodec.Packet
+		for i := 0; i < int(cfg.ReceiveMax); i++ {
+			pi := g.Publish(1)
+			g.plan.Ops[pi].Pkt.Qos = 2
+			if g.plan.Ops[pi].Pkt.PacketID == 0 {
+				g.plan.Ops[pi].Pkt.PacketID = g.pid(1)
+			}
+			origs = append(origs, g.plan.Ops[pi].Pkt)
+		}
+		g.Drop(1)
+		ci2 := g.Connect(1)
+		g.plan.Ops[ci2].AckMode = 3
+		g.plan.Ops[ci2].Pkt.CleanStart = false
+		g.plan.Ops[ci2].Pkt.ProtoVer = g.plan.Ops[ci].Pkt.ProtoVer
+		g.plan.Ops[ci2].Pkt.Props = g.plan.Ops[ci].Pkt.Props
+		if len(origs) > 0 {
+			cp := *origs[t.Draw("c11.which", len(origs))]
+			cp.Dup = true
+			g.add(Op{Kind: "publish", Slot: 1, Pkt: &cp, Note: "retransmit"})
+		}
+		for i := first; i < len(g.plan.Ops); i++ {
+			g.plan.Ops[i].Concurrent = false
+		}
+	}
 	return g.Run()
 }
 
